@@ -19,8 +19,10 @@ def sh(cmd, cwd=None, timeout=None):
 def main():
     prop, n, crate, needs = sys.argv[1], sys.argv[2], sys.argv[3], sys.argv[4]
     checks = sys.argv[5:]
-    src = "/tmp/seed/out/%s/%s" % (prop, n)
-    wt = "/tmp/seed/%s" % prop
+    rnd = int(os.environ.get("SEED_ROUND", "1"))
+    src = "/tmp/seed/out%s/%s/%s" % ("" if rnd == 1 else str(rnd), prop, n)
+    wt = "/tmp/seed/%s%s" % (prop, "" if rnd == 1 else "b")
+    fid = str(int(n) + 2 * (rnd - 1))
     rc, out = sh("python3 %s/tools/confirm_seed.py %s %s %s" % (V, wt, src, crate))
     try:
         conf = json.loads(out.strip().splitlines()[-1])
@@ -38,7 +40,7 @@ def main():
                 pass
     caught = [p for p, r in results.items() if r.get("rc")]
     how = {p: [l.strip()[:300] for l in r.get("lines", [])[:3]] for p, r in results.items() if r.get("rc")}
-    d = os.path.join(V, "seeded", "%s-%s" % (prop, n))
+    d = os.path.join(V, "seeded", "%s-%s" % (prop, fid))
     os.makedirs(d, exist_ok=True)
     for f in ("patch.diff", "demo.rs", "notes.txt"):
         if os.path.exists(os.path.join(src, f)):
@@ -49,11 +51,12 @@ def main():
             "produced_by": "fresh sub-agent given only the property text and a scratch worktree of /repo (no access to /verif)",
             "confirmed_in_scratch_worktree": {k: v for k, v in conf.items() if k != "demo_failure_excerpt"},
             "demo_failure_excerpt": str(conf.get("demo_failure_excerpt", ""))[:300],
-            "confirm_cmd": "tools/confirm_seed.py <worktree> seeded/%s-%s %s" % (prop, n, crate),
-            "ran": "tools/run_seed.py seeded/%s-%s/patch.diff %s   (git -C /repo apply; ./check <id> --tier quick; git -C /repo checkout -- .)" % (prop, n, " ".join(checks)),
+            "confirm_cmd": "tools/confirm_seed.py <worktree> seeded/%s-%s %s" % (prop, fid, crate),
+            "ran": "tools/run_seed.py seeded/%s-%s/patch.diff %s   (git -C /repo apply; ./check <id> --tier quick; git -C /repo checkout -- .)" % (prop, fid, " ".join(checks)),
+            "round": rnd,
             "checks_run": checks, "caught_by": caught, "how": how}
     json.dump(meta, open(os.path.join(d, "meta.json"), "w"), indent=1, ensure_ascii=False)
-    print("FILED %s-%s caught_by=%s" % (prop, n, caught))
+    print("FILED %s-%s caught_by=%s" % (prop, fid, caught))
 
 
 if __name__ == "__main__":
